@@ -7,7 +7,7 @@ opaque indices of every integer type, len, string indexing, prints) are rendered
 run from the working tree (stdout on a pipe); verdict, stdout lines, panic message and exit status are compared
 with Models/Bounds.v `run` (vm_compute inside Coq) and with the reference `spec` (python mirror + Coq).
 A large type-check-only stream exercises the static literal-length tracker through the in-process batch hook."""
-import os, json, hashlib, re, subprocess
+import os, json, hashlib, re, subprocess, time
 import common
 from common import Work
 
@@ -381,7 +381,15 @@ def judge(p, ob):
     return None
 
 def run_prog(p, work, name, target="native"):
-    return observe(common.compile_and_run(render(p), work, name, target=target))
+    ob = observe(common.compile_and_run(render(p), work, name, target=target))
+    tries = 0
+    while not ob["acc"] and ob["abnormal"] and tries < 2:
+        # a build that failed without any index diagnostic is re-tried before it is believed: on a loaded machine the
+        # compiler / linker process is occasionally killed (empty output); a genuine back-end failure is deterministic
+        tries += 1
+        time.sleep(1.0 * tries)
+        ob = observe(common.compile_and_run(render(p), work, "%s_r%d" % (name, tries), target=target))
+    return ob
 
 def shrink(p, work, target, tag, budget=24):
     """greedy op removal keeping the property violated"""
@@ -545,12 +553,12 @@ def main(run):
     dynamic_stream(run, work, [p for n, p in cp if wasm_ok(p) and (thorough or not n.startswith("paths-") or n in ("paths-array-get", "paths-array-set", "paths-str-long", "paths-oob-ref", "paths-oob-lmut", "paths-oob-fref"))], "wasm", "cw")
     flow_probes(run, work)
     # 2. static tracker at volume (type-check only, in-process)
-    static_stream(run, work, 4000 if thorough else 300)
+    static_stream(run, work, 3000 if thorough else 300)
     # 3. generated histories, compiled and run
     g = Gen(run.rng, ITY)
-    dynamic_stream(run, work, [g.prog() for _ in range(1300 if thorough else 50)], "native", "gn")
+    dynamic_stream(run, work, [g.prog() for _ in range(1000 if thorough else 50)], "native", "gn")
     gw = Gen(run.rng, WASM_TY)
-    dynamic_stream(run, work, [gw.prog() for _ in range(500 if thorough else 8)], "wasm", "gw")
+    dynamic_stream(run, work, [gw.prog() for _ in range(350 if thorough else 8)], "wasm", "gw")
 
 def replay(run, path):
     r = json.load(open(path))
